@@ -32,6 +32,13 @@ PROFILE = {
 POOL = [-2.0, -1.0, 0.0, 0.5, 1.0, 1.0, 3.0, float("nan")]
 POOL_INF = POOL + [float("inf"), float("-inf")]
 FAIR_SEEDS = range(128)
+INT_POOLS = {
+    "int64": [-3, -1, 0, 0, 1, 1, 2, 2**53, 2**53 + 1, 2**60, 2**60 + 1,
+              -(2**60), -(2**60) - 1, -(2**63), 2**63 - 1],
+    "int32": [-3, -1, 0, 0, 1, 1, 2, 2**31 - 1, -(2**31)],
+    "uint8": [0, 0, 1, 1, 2, 7, 255],
+    "uint64": [0, 0, 1, 2, 2**63, 2**63 + 1, 2**64 - 2, 2**64 - 1],
+}
 
 
 def _values(allow_inf, nonneg=False):
@@ -73,9 +80,22 @@ def _case(draw):
         a, shape = draw(_array(True))
         axis = draw(st.sampled_from([None] + list(range(len(shape)))
                                     + [-1]))
-        as_int = False
         as_list = draw(st.booleans())
-        return dict(fn=fn, a=a, axis=axis, seed=seed, as_list=as_list)
+        case = dict(fn=fn, a=a, axis=axis, seed=seed, as_list=as_list)
+        if draw(st.integers(0, 2)) == 0:
+            # "all utility arrays": integer typed arrays as well (exact
+            # comparisons - neighbours beyond 2**53, unsigned zero/non-zero)
+            dt = draw(st.sampled_from(sorted(INT_POOLS)))
+            n = int(np.prod(shape))
+            vals = draw(st.lists(st.sampled_from(INT_POOLS[dt]), min_size=n,
+                                 max_size=n))
+            case["a"] = np.array(vals, dtype=object).reshape(shape).tolist()
+            case["dtype"] = dt
+            if dt == "uint64":
+                # numpy turns a Python list mixing 0 and 2**64-1 into
+                # float64 before the library sees it: arrays only
+                case["as_list"] = False
+        return case
     if fn == "simple_max":
         with_inf = draw(st.integers(0, 9)) == 0
         a, shape = draw(_array(with_inf))
@@ -109,12 +129,13 @@ def _check_rand_arg(case):
     from skactiveml.utils import rand_argmax, rand_argmin
     fn = rand_argmax if case["fn"] == "rand_argmax" else rand_argmin
     comp = case["fn"]
-    a = np.array(case["a"], dtype=float)
+    a = np.array(case["a"], dtype=case.get("dtype") or float)
     arg = case["a"] if case.get("as_list") else a.copy()
     axis = case["axis"]
     red = np.nanmax if case["fn"] == "rand_argmax" else np.nanmin
     viol, labels = [], [f"component={comp}", f"ndim={a.ndim}",
-                        f"axis={axis}"]
+                        f"axis={axis}",
+                        f"dtype={case.get('dtype') or 'float'}"]
     kw = {} if axis is None else {"axis": axis}
     # reference optimum per slice
     if axis is None:
